@@ -96,17 +96,27 @@ def do_import_benign(pid, src):
     return n
 
 
-def run_checks(pids):
+def run_checks(pids, root=REPO):
     out = {}
     for pid in pids:
-        rc, txt = sh("./check %s" % pid, cwd=VERIF)
+        rc, txt = sh("./check %s --repo %s --no-evidence" % (pid, root) if root != "/repo" else "./check %s" % pid, cwd=VERIF)
         rules = sorted(set(re.findall(r"\[([A-Z0-9][A-Z0-9-]+)\]", "\n".join(l for l in txt.splitlines() if l.startswith("  ") and "[" in l and "rule " not in l[:8]))))
         viol = [l for l in txt.splitlines() if l.startswith("VIOLATION")]
         out[pid] = {"exit": rc, "violations": len(viol), "rules": rules}
     return out
 
 
-def confirm(d, tests=False, pids=None):
+def confirm(d, tests=False, pids=None, root=REPO):
+    """root: the tree the change is applied to — /repo itself, or a scratch worktree of it (parallel runs)"""
+    global REPO
+    saved_repo, REPO = REPO, root
+    try:
+        return _confirm(d, tests, pids, root)
+    finally:
+        REPO = saved_repo
+
+
+def _confirm(d, tests, pids, root):
     d = os.path.abspath(d.rstrip("/"))
     meta_p = os.path.join(d, "meta.json")
     meta = json.load(open(meta_p))
@@ -128,7 +138,7 @@ def confirm(d, tests=False, pids=None):
             result["_out1"] = out1
             result["demo_on_clean"] = {"exit": rc0, "tail": out0.strip().splitlines()[-1:] if out0.strip() else []}
             result["demo_on_changed"] = {"exit": rc1, "tail": [l for l in out1.splitlines() if l.startswith("VIOLATED")][:2] or out1.strip().splitlines()[-1:]}
-            result["checks"] = run_checks(pids or ALL)
+            result["checks"] = run_checks(pids or ALL, root)
             if tests:
                 rct, outt = sh("%s %s/tools/baseline.py" % ("python3", VERIF))
                 result["baseline"] = outt.strip().splitlines()[-3:]
@@ -160,6 +170,23 @@ def confirm(d, tests=False, pids=None):
     return result
 
 
+def _confirm_pid(pid):
+    base = os.path.join(VERIF, "seeded")
+    wt = "/tmp/seed/wt_%s" % pid
+    lines = []
+    if not os.path.isdir(wt):
+        return ["%s: scratch worktree %s missing" % (pid, wt)]
+    sh("git -C %s checkout -- ." % wt)
+    for name in sorted(os.listdir(os.path.join(base, pid))):
+        d = os.path.join(base, pid, name)
+        if not os.path.exists(os.path.join(d, "patch.diff")):
+            continue
+        r = confirm(d, root=wt) or {}
+        kind = json.load(open(os.path.join(d, "meta.json"))).get("kind", "break")
+        lines.append("%s %-6s %-55s confirmed=%s %s=%s refused=%s" % (pid, kind, name[:55], r.get("confirmed"), "alarms" if kind == "benign" else "caught_by", ",".join(r.get("caught_by", [])), ",".join(r.get("analysis_errors", []))))
+    return lines
+
+
 def main():
     a = sys.argv[1:]
     if not a:
@@ -189,6 +216,16 @@ def main():
                 c = mt.get("confirmation", {})
                 rules = "; ".join("%s %s" % (p, ",".join(r["rules"])) for p, r in sorted(c.get("checks", {}).items()) if r["exit"] == 1)
                 print("| %s | %s | %s | %s | %s | %s |" % (pid, (mt.get("title") or name).replace("|", "/")[:110], mt.get("kind", "break"), "yes" if c.get("confirmed") else "NO", rules or "-", ",".join(c.get("analysis_errors", [])) or "-"))
+    elif a[0] == "parallel":
+        # every property's changes in that property's scratch worktree /tmp/seed/wt_<PID> (clean, at /repo's HEAD)
+        from concurrent.futures import ProcessPoolExecutor
+
+        base = os.path.join(VERIF, "seeded")
+        only = a[1:] or sorted(os.listdir(base))
+        jobs = [pid for pid in only if os.path.isdir(os.path.join(base, pid))]
+        with ProcessPoolExecutor(max_workers=10) as ex:
+            for lines in ex.map(_confirm_pid, jobs):
+                print("\n".join(lines), flush=True)
     elif a[0] == "all":
         rows = []
         base = os.path.join(VERIF, "seeded")
